@@ -68,6 +68,7 @@ type BFSResult struct {
 	GraphStates                               []*State // if KeepGraph
 	GraphEdges                                []Edge
 	NotExpanded                               int64 // states outside the constraint
+	DistinctStates                            int64 // delay-bounded search: distinct system states among the nodes
 	DevRounds                                 []int64 // states first reached with exactly d deviations
 	Reexpanded                                int64   // states reached again with fewer deviations (expanded again)
 	OverBudget                                int64   // transitions not taken because they exceed MaxDev
